@@ -64,6 +64,18 @@ CHECKS.update({
             "Trusted: process-crash model; no queue deletion in these histories so positions identify batches.", "9/C12"),
 })
 
+CHECKS.update({
+    "C07": ("exploration", "enumerated boundary grid + generated sequences through the record layer in memory (round-trip oracle), and generated aimed-alignment histories through files (reference-model oracle after restart)",
+            "A dense grid of (in-block start offset, entry length, follower) around every block-boundary case is enumerated exhaustively through RecordWriter/RecordReader over in-memory blocks, with identity as oracle; generated append histories with lengths aimed at block ends, file ends and the 7-bytes-left case exercise the same alignments through real WAL files of 128 KiB, including entries spanning three files.",
+            "Trusted: the grid is a finite sub-space (labelled as such); in-memory route uses the harness' BlockWrite/BlockRead.", "9/C07"),
+    "C10": ("fault_enumeration", "generated damage sequences of all kinds (in-place, structural, crafted CRC-valid frames) on WAL images of generated histories; crash oracle (no panic, bounded block loads, capped memory, watchdog)",
+            "10 damaged directories per generated history, 1..8 damage operations each, including crafted frames with correct CRCs carrying hostile entry bytes; open must return, and every read accessor of a returned log must run, without panic; block loads are bounded by the directory size; address space is capped and a per-case watchdog with isolated confirmation turns hangs into violations.",
+            "Trusted: catch_unwind sees every panic (panic=unwind build); duplicated files stay near the existing numbers.", "9/C10"),
+    "C11": ("fault_enumeration", "exhaustive single-fault injection at every recovery I/O call of WAL images from generated histories",
+            "For every generated multi-file image, every one of the N I/O calls recovery makes (counted by a dry run) is failed once, transiently and persistently, with a generated error kind; open must return Err(IoError) and never re-enter a persistently failing site 10 000 times.",
+            "Trusted: fault sites cover read_dir, entries, file_type, open of WAL files and every block read in src/rolling/directory.rs.", "9/C11"),
+})
+
 NOT_YET = {
 }
 
